@@ -12,7 +12,7 @@ direct oracle : None -> T? and T -> T? accepted (generated conforming programs +
                 bound, handle arm value), judged by typing_common.Spec."""
 from . import typing_common as tc
 
-KINDS = {"none", "nullable", "nullable-subtype"}
+KINDS = {"none", "nullable", "nullable-subtype", "unwrap"}
 THEOREMS = ["C06_rule", "C06_nonnull_accepted", "C06_null_flow", "C06_null_flow_impl_outside_known",
             "C06_nullable_accepts", "C06_quest_is_nonnull", "C06_null_flow_refuted",
             "C06_rejects_none_for_nullable_formal"]
